@@ -186,6 +186,9 @@ func buildHarness(race bool) string {
 		f.Write(extra)
 		f.Close()
 	}
+	if out, err := run(scratch, goEnv(), goNew, "mod", "edit", "-require=github.com/anishathalye/porcupine@v1.3.0"); err != nil {
+		die(2, "go mod edit failed: %v\n%s", err, out)
+	}
 	out, err := run(scratch, goEnv(), simgen, "-dir", scratch, "-report", filepath.Join(scratch, "simgen.json"), "./pkg/...", "./cmd/...")
 	if err != nil {
 		die(2, "instrumentation failed: %v\n%s", err, out)
@@ -276,6 +279,7 @@ type workerOut struct {
 	Stats     stats             `json:"stats"`
 	Failures  []json.RawMessage `json:"failures"`
 	FailCount map[string]int    `json:"fail_count"`
+	RunHashes map[int]string    `json:"run_hashes"`
 }
 
 type knownFinding struct {
@@ -378,11 +382,13 @@ func slug(s string) string {
 	return s
 }
 
+var workerProcs = "2"
+
 func runWorker(bin string, tmp string, idx int, args []string, timeout time.Duration) (*workerOut, error) {
 	out := filepath.Join(tmp, fmt.Sprintf("w%d.json", idx))
 	full := append([]string{"-test.run", "^TestSim$", "-test.timeout", "0", "-out", out}, args...)
 	cmd := exec.Command(bin, full...)
-	cmd.Env = append(os.Environ(), "GOMAXPROCS=2", "GODEBUG=asynctimerchan=0")
+	cmd.Env = append(os.Environ(), "GOMAXPROCS="+workerProcs, "GODEBUG=asynctimerchan=0")
 	var buf bytes.Buffer
 	cmd.Stdout = &buf
 	cmd.Stderr = &buf
@@ -824,11 +830,98 @@ func main() {
 	switch os.Args[1] {
 	case "check":
 		cmdCheck(os.Args[2:])
+	case "selftest":
+		cmdSelftest(os.Args[2:])
 	case "build":
 		ensureSimgen()
 		bin := buildHarness(false)
 		fmt.Println("vdriver: harness at", bin)
 	default:
 		die(2, "unknown command %q", os.Args[1])
+	}
+}
+
+// cmdSelftest: determinism - the same (seed, run) must give the same event-log
+// hash, schedule hash, step count and verdict in separate OS processes, at
+// GOMAXPROCS 1, 4 and 16, and at a different position within a worker's batch.
+func cmdSelftest(args []string) {
+	if len(args) < 2 || args[0] != "determinism" {
+		die(2, "usage: vdriver selftest determinism <id> [runs] [seed]")
+	}
+	id := args[1]
+	runs := 300
+	seed := "7"
+	if len(args) > 2 {
+		runs, _ = strconv.Atoi(args[2])
+	}
+	if len(args) > 3 {
+		seed = args[3]
+	}
+	bin := buildHarness(false)
+	tmp, err := os.MkdirTemp("/var/tmp", "verif-self-")
+	if err != nil {
+		die(2, "mktemp: %v", err)
+	}
+	defer os.RemoveAll(tmp)
+	type variant struct {
+		procs string
+		slice int
+	}
+	variants := []variant{{"1", 50}, {"4", 37}, {"16", 11}}
+	var results []map[int]string
+	for vi, v := range variants {
+		workerProcs = v.procs
+		merged := map[int]string{}
+		var mu sync.Mutex
+		var wg sync.WaitGroup
+		sem := make(chan struct{}, 16)
+		var firstErr error
+		idx := 0
+		for f := 0; f < runs; f += v.slice {
+			t := f + v.slice
+			if t > runs {
+				t = runs
+			}
+			wg.Add(1)
+			sem <- struct{}{}
+			idx++
+			go func(f, t, idx int) {
+				defer wg.Done()
+				defer func() { <-sem }()
+				wo, err := runWorker(bin, tmp, vi*100000+idx, []string{"-prop", id, "-tier", "quick", "-seed", seed, "-from", strconv.Itoa(f), "-to", strconv.Itoa(t), "-hashes"}, 10*time.Minute)
+				mu.Lock()
+				defer mu.Unlock()
+				if err != nil {
+					if firstErr == nil {
+						firstErr = err
+					}
+					return
+				}
+				for k, h := range wo.RunHashes {
+					merged[k] = h
+				}
+			}(f, t, idx)
+		}
+		wg.Wait()
+		if firstErr != nil {
+			die(2, "selftest worker: %v", firstErr)
+		}
+		results = append(results, merged)
+	}
+	bad := 0
+	for r := 0; r < runs; r++ {
+		a := results[0][r]
+		for vi := 1; vi < len(results); vi++ {
+			if results[vi][r] != a {
+				if bad < 10 {
+					fmt.Printf("NONDETERMINISTIC %s run %d: GOMAXPROCS=%s %s vs GOMAXPROCS=%s %s\n", id, r, variants[0].procs, a, variants[vi].procs, results[vi][r])
+				}
+				bad++
+			}
+		}
+	}
+	fmt.Printf("selftest determinism %s: %d runs x %d variants (GOMAXPROCS 1/4/16, different batch positions), %d mismatches\n", id, runs, len(variants), bad)
+	if bad > 0 {
+		os.Exit(1)
 	}
 }
